@@ -227,6 +227,11 @@ func Signed(args []string) {
 				if digest == "sha1" {
 					ans := j.validate([]byte(x), 0, spkiOf(leaf))
 					jdkOK := strings.HasPrefix(ans, "VALID")
+					if rw.name == "identity" && !jdkOK {
+						r.Fail(map[string]string{"engine": "xml-signed", "kind": "jdk-rejects-relic-output", "type": "manifest"}, rep,
+							"manifest (%s, %s): the JDK XML-DSig validator does not accept the signature relic wrote: %s", kn, digest, ans)
+						break
+					}
 					if strings.HasPrefix(ans, "ERR") && rw.preserve {
 						r.Note("JDK could not judge manifest/%s/%s: %s", kn, rw.name, ans)
 					} else if jdkOK != rw.preserve {
@@ -300,6 +305,11 @@ func Signed(args []string) {
 			r.Eval(rw.name != "identity")
 			ans := j.validate([]byte(x), 0, spkiOf(w.Keys[kn].Leaf.Cert))
 			jdkOK := strings.HasPrefix(ans, "VALID")
+			if rw.name == "identity" && !jdkOK {
+				r.Fail(map[string]string{"engine": "xml-signed", "kind": "jdk-rejects-relic-output", "type": "vsix"}, rep,
+					"vsix (%s): the JDK XML-DSig validator does not accept the package signature relic wrote: %s", kn, ans)
+				break
+			}
 			if jdkOK != rw.preserve {
 				r.Note("ORACLE: JDK says %s for vsix rewrite %s (expected preserve=%v)", ans, rw.name, rw.preserve)
 				r.Count("oracle_disagreements", 1)
